@@ -7,7 +7,10 @@ import subprocess
 import sys
 from pathlib import Path
 
+import os
+
 ROOT = Path(__file__).resolve().parent.parent
+REPO = os.environ.get("VERIF_REPO", "/repo")     # a background run works on its own snapshot of /repo (vp run --with-repo)
 
 
 def sh(cmd):
@@ -17,14 +20,14 @@ def sh(cmd):
 def main() -> int:
     want = set(sys.argv[1:])
     res = {}
-    assert sh("git -C /repo status --porcelain").stdout.strip() == "", "/repo is not clean"
+    assert sh(f"git -C {REPO} status --porcelain").stdout.strip() == "", f"{REPO} is not clean"
     for d in sorted((ROOT / "seeded").iterdir()):
         if not (d / "patch.diff").exists() or (want and d.name not in want):
             continue
         meta = json.loads((d / "meta.json").read_text())
         pid = meta["property"]
         checks = [pid] + [c for c in meta.get("detected_by", []) if c != pid]
-        ap = sh(f"git -C /repo apply {d / 'patch.diff'}")
+        ap = sh(f"git -C {REPO} apply {d / 'patch.diff'}")
         if ap.returncode != 0:
             res[d.name] = "patch does not apply"
             continue
@@ -36,7 +39,7 @@ def main() -> int:
                 if c == pid and p.returncode == 1:
                     break
         finally:
-            sh("git -C /repo checkout -- .")
+            sh(f"git -C {REPO} checkout -- .")
             sh(f"git -C {ROOT} checkout -- evidence")      # evidence written while a seeded change was applied is not evidence
         res[d.name] = got
         print(d.name, got, flush=True)
@@ -44,7 +47,10 @@ def main() -> int:
     own_missed = [k for k, v in res.items() if isinstance(v, list) and v and v[0][1] != 1]
     print("MISSED:", missed)
     print("NOT-BY-OWN-CHECK:", own_missed)
-    (ROOT / "seeded" / "REGRESSION.json").write_text(json.dumps({k: v for k, v in res.items()}, indent=1))
+    out = ROOT / "seeded" / "REGRESSION.json"
+    merged = json.loads(out.read_text()) if (want and out.exists()) else {}
+    merged.update({k: v for k, v in res.items()})
+    out.write_text(json.dumps(merged, indent=1))
     return 1 if missed else 0
 
 
